@@ -6,9 +6,16 @@ import (
 	"math/big"
 
 	banktypes "github.com/cosmos/cosmos-sdk/x/bank/types"
+	slashingtypes "github.com/cosmos/cosmos-sdk/x/slashing/types"
 	"github.com/ethereum/go-ethereum/accounts/abi"
+	ethtypes "github.com/ethereum/go-ethereum/core/types"
 
 	"github.com/haqq-network/haqq/contracts"
+	distpc "github.com/haqq-network/haqq/precompiles/distribution"
+	stakingpc "github.com/haqq-network/haqq/precompiles/staking"
+	evmtypes "github.com/haqq-network/haqq/x/evm/types"
+
+	"verif/harness/vn"
 )
 
 type bigInt = big.Int
@@ -16,3 +23,19 @@ type bigInt = big.Int
 type bankMsgSend = banktypes.MsgSend
 
 func erc20ABI() abi.ABI { return contracts.ERC20MinterBurnerDecimalsContract.ABI }
+
+type slashingMsgUnjail = slashingtypes.MsgUnjail
+
+func mustEthMsg(tx *ethtypes.Transaction) *evmtypes.MsgEthereumTx {
+	m := &evmtypes.MsgEthereumTx{}
+	vn.Must(m.FromEthereumTx(tx))
+	return m
+}
+
+// histABIs returns the staking and distribution precompile ABIs of a node.
+func histABIs(n *vn.Node) (abi.ABI, abi.ABI) {
+	st, err := stakingpc.LoadABI()
+	vn.Must(err)
+	pcs := n.App.EvmKeeper.Precompiles(addrDist)
+	return st, pcs[addrDist].(*distpc.Precompile).ABI
+}
